@@ -10,7 +10,7 @@ use blsful::vsss_rs::Share;
 use blsful::*;
 use serde_json::{json, Value};
 
-pub const RULE: &str = "enumeration of entry point x argument position (identity substituted alone and together with an otherwise honest remainder; where an all-identity combination satisfies the pairing equation trivially that combination is constructed explicitly) x scheme x group x message: Signature::verify, AggregateSignature::verify (n in {1,2,3,8[,64]}: identity key at EVERY position with the aggregate recomputed over the remaining honest pairs so that only the guard can reject; aggregate that is itself the identity from signers k and -k), MultiSignature::verify (accumulated key pk+(-pk) with the matching identity multi-signature), ProofOfPossession::verify, ProofOfKnowledge::verify and ProofOfKnowledgeTimestamp::verify (u, v, pk, y=0 incl. the algebraically satisfying forgeries), ProofCommitment::finalize (u, sig, x=0, y=0), SignCryptCiphertext::is_valid/decrypt, SignDecryptionShare::verify, TimeCryptCiphertext::decrypt (incl. a ciphertext crafted to open under the identity signature), ElGamalProof::verify/verify_and_decrypt (c1, c2, pk, each scalar = 0, sk = 0); zero scalar through every byte importer and every signing entry point; identity recipient for the Result-returning encryptions. Oracle: must not succeed; positive twin (honest value restored -> same call succeeds) in the same run, a case whose twin fails is vacuous and not counted. History clusters (2 quick / 32 thorough per group): the honest questions and the same questions with the identity substituted (signatures of every scheme, two-signer aggregates with an identity-key pair added, multi-signatures, proof of possession) in every ordered pair (a,b) as a,b,b,a. Distinct by (suite, entry, position, scheme, inputs).";
+pub const RULE: &str = "enumeration of entry point x argument position (identity substituted alone and together with an otherwise honest remainder; where an all-identity combination satisfies the pairing equation trivially that combination is constructed explicitly) x scheme x group x message: Signature::verify, AggregateSignature::verify (n in {1,2,3,8[,64]}: identity key at EVERY position with the aggregate recomputed over the remaining honest pairs so that only the guard can reject; aggregate that is itself the identity from signers k and -k), MultiSignature::verify (accumulated key pk+(-pk) with the matching identity multi-signature), ProofOfPossession::verify, ProofOfKnowledge::verify and ProofOfKnowledgeTimestamp::verify (u, v, pk, y=0 incl. the algebraically satisfying forgeries), ProofCommitment::finalize (u, sig, x=0, y=0), SignCryptCiphertext::is_valid/decrypt, SignDecryptionShare::verify, TimeCryptCiphertext::decrypt (incl. a ciphertext crafted to open under the identity signature), ElGamalProof::verify/verify_and_decrypt (c1, c2, pk, each scalar = 0, sk = 0; and proofs built by the reference whose transcript is consistent with c1 = O (blinder 0) resp. pk = O, so that only the identity guard can reject); zero scalar through every byte importer and every signing entry point; identity recipient for the Result-returning encryptions. Oracle: must not succeed; positive twin (honest value restored -> same call succeeds) in the same run, a case whose twin fails is vacuous and not counted. History clusters (2 quick / 32 thorough per group): the honest questions and the same questions with the identity substituted (signatures of every scheme, two-signer aggregates with an identity-key pair added, multi-signatures, proof of possession) in every ordered pair (a,b) as a,b,b,a. Distinct by (suite, entry, position, scheme, inputs).";
 
 pub fn run(ctx: &mut Ctx) {
     for_both!(run_suite, ctx);
@@ -427,6 +427,30 @@ fn run_suite<C: Suite>(ctx: &mut Ctx) {
                 let sk0 = SecretKey::<C>(zero);
                 let a = kx.ctx.guard("ElGamalProof::verify_and_decrypt", dd, || proof.verify_and_decrypt(&sk0).is_ok());
                 kx.must_reject("ElGamalProof", "sk=0", sn, twin, a, &[&kb], dd);
+                // purpose-built proofs whose Fiat-Shamir transcript is CONSISTENT with the identity
+                // component (the plain substitutions above already fail at the challenge
+                // comparison, so only the identity guard can reject these): blinder 0 gives
+                // c1 = O, c2 = m*H with a matching challenge; pk = O likewise
+                {
+                    let fr = |p: &refimpl::RElGamalProof<C::R>| ElGamalProof::<C> {
+                        ciphertext: ElGamalCiphertext { c1: lp::<C>(p.c1), c2: lp::<C>(p.c2) },
+                        message_proof: sc_from_rs::<C>(&p.message_proof),
+                        blinder_proof: sc_from_rs::<C>(&p.blinder_proof),
+                        challenge: sc_from_rs::<C>(&p.challenge),
+                    };
+                    let mm = gen::random_scalar(&mut rng);
+                    let rr = gen::random_scalar(&mut rng);
+                    let bb = gen::random_scalar(&mut rng);
+                    // twin of the construction: the reference proof with a non-zero blinder verifies
+                    let honest = fr(&refimpl::elgamal_prove::<C::R>(rpk_of::<C>(&pk), &mm, &bb, &rr));
+                    let twin2 = twin && honest.verify(pk).is_ok();
+                    let forged = fr(&refimpl::elgamal_prove::<C::R>(rpk_of::<C>(&pk), &mm, &refimpl::RS::ZERO, &rr));
+                    let a = probe(&mut kx, &forged, pk, &sk);
+                    kx.must_reject("ElGamalProof", "c1", sn, twin2, a, &[&kb, b"consistent transcript, blinder = 0"], dd);
+                    let forged_pk = fr(&refimpl::elgamal_prove::<C::R>(RPk::<C>::id(), &mm, &bb, &rr));
+                    let a = kx.ctx.guard("ElGamalProof::verify", dd, || forged_pk.verify(o_pk).is_ok());
+                    kx.must_reject("ElGamalProof", "pk", sn, twin2, a, &[&kb, b"consistent transcript, pk = O"], dd);
+                }
             }
 
             // 11. zero key
